@@ -401,7 +401,9 @@ Proof.
     eapply Rle_trans; [apply rlog_taylor_bound; lra|].
     set (t := vnorm x) in *. clearbody t.
     assert (t ^ 4 <= eps ^ 4) by (apply pow_incr; lra).
-    assert (eps ^ 4 <= eps) by (replace (eps ^ 4) with (eps * (eps * eps * eps)) by ring; nra).
+    assert (eps ^ 4 <= eps).
+    { replace (eps ^ 4) with (eps * (eps * eps * eps)) by ring. apply Rle_trans with (eps * 1); [|lra].
+      apply Rmult_le_compat_l; [lra|]. assert (0 <= eps * eps <= 1 / 1024) by nra. nra. }
     lra.
   - destruct (Rle_or_lt (sin (vnorm x / 2)) eps) as [Hs|Hs].
     + destruct (log_exp_so3_band eps x He He2 Hx Hpi Hs) as (r & E & Hr & Ht). exists r. split; [exact E|].
@@ -409,12 +411,13 @@ Proof.
       assert (t ^ 4 <= (4 * eps) ^ 4) by (apply pow_incr; lra).
       assert ((4 * eps) ^ 4 <= eps).
       { replace ((4 * eps) ^ 4) with (eps * (256 * (eps * eps * eps))) by ring.
-        rewrite <- (Rmult_1_r eps) at 2. apply Rmult_le_compat_l; [lra|]. nra. }
+        apply Rle_trans with (eps * 1); [|lra]. apply Rmult_le_compat_l; [lra|].
+        assert (0 <= eps * eps <= 1 / 1024 * (1 / 1024)) by nra. nra. }
       lra.
     + destruct (Rle_or_lt (cos (vnorm x / 2)) eps) as [Hc|Hc].
       * destruct (log_exp_so3_near_pi eps x He He2 Hx Hpi Hc) as [E Hb]. exists (PI / vnorm x - 1). split.
         { rewrite E. f_equal. ring. }
-        set (t := vnorm x) in *. clearbody t. assert (Ht3 : 3 <= t) by (pose proof PI2_3_2; lra).
+        set (t := vnorm x) in *. clearbody t. assert (Ht3 : 2 <= t) by (pose proof PI2_3_2; lra).
         replace (PI / t - 1) with ((PI - t) / t) by (field; lra).
         rewrite Rabs_pos_eq by (apply Rmult_le_pos; [lra|left; apply Rinv_0_lt_compat; lra]).
         apply Rle_div_l; [lra|]. nra.
